@@ -14,7 +14,8 @@
 EXTENDS Typing, Json, TLC
 
 CONSTANTS NumTys,      \* numeric types the templates are instantiated with
-          Families     \* edit families to apply (all of AllFamilies normally)
+          Families,    \* edit families to apply (all of AllFamilies normally)
+          MaxMembers   \* type-declaration grammar: the subject type has 1..MaxMembers members
 
 (* ---------------------------------------------------------------- vocabulary *)
 I(v)        == [k |-> "int", v |-> v, suf |-> ""]
@@ -355,6 +356,60 @@ SFm(t) == <<
 
 Seed(name, ds) == [name |-> name, prog |-> Flat(ds)]
 
+(* scopes: lets of scalar, String and List type in then / else-if / else blocks, nested blocks, *)
+(* match arms, loop bodies; every name is unique in its function                                 *)
+SScope(t) == <<
+  Fn("sc1", <<Pm("c", Bool), Pm("x", T(t))>>, T(t), Blk(<<>>,
+     If(V("c"),
+        Blk(<<Let("a1", T(t), Bin("add", V("x"), L(t, 1))), Let("s1", Str, S("h")), Let("l1", ListOf(T(t)), Lst(<<V("x")>>))>>, V("a1")),
+        Blk(<<>>, If(Bin("gt", V("x"), L(t, 1)),
+                     Blk(<<Let("b1", T(t), V("x"))>>, V("b1")),
+                     Blk(<<>>, Blk(<<Let("d1", T(t), V("x"))>>, V("d1")))))))),
+  Fn("sc2", <<Pm("c", Bool), Pm("s", Str)>>, Str, Blk(<<>>,
+     If(V("c"), Blk(<<Let("s2", Str, Bin("add", V("s"), S("a")))>>, V("s2")),
+                Blk(<<Let("e2", Str, Bin("add", V("s"), S("b")))>>, V("e2"))))),
+  Fn("sc3", <<Pm("o", Opt(T(t))), Pm("y", T(t))>>, T(t), Blk(<<>>, Match(V("o"), <<
+      Arm("Some", <<"v3">>, Blk(<<Let("w3", T(t), Bin("add", V("v3"), V("y")))>>, V("w3"))),
+      Arm("None", <<>>, Blk(<<Let("n3", T(t), V("y")), Let("m3", Str, S("n"))>>, V("n3")))>>))),
+  Fn("sc4", <<Pm("z", T(t))>>, T(t), Blk(<<
+      Let("i4", T(t), L(t, 1)),
+      While(Bin("lt", V("i4"), V("z")), BlkU(<<Let("t4", T(t), Bin("add", V("i4"), L(t, 1))), Asg(<<"i4">>, V("t4"))>>)),
+      For("e4", Lst(<<V("z")>>), BlkU(<<Let("f4", T(t), V("e4")), Asg(<<"i4">>, V("f4"))>>)),
+      BlkU(<<Let("g4", Str, S("z")), Let("h4", ListOf(Str), Lst(<<V("g4")>>))>>),
+      If1(Bin("gt", V("i4"), V("z")), BlkU(<<Let("k4", T(t), V("z")), Asg(<<"i4">>, V("k4"))>>))>>, V("i4"))),
+  Fn("sc5", <<Pm("ls", ListOf(Str))>>, Str, Blk(<<
+      Let("r5", Str, S("")),
+      For("q5", V("ls"), BlkU(<<Let("u5", Str, Bin("add", V("q5"), S("x"))), Asg(<<"r5">>, V("u5"))>>))>>, V("r5")))>>
+
+(* type declarations drawn from a small grammar: the subject type TA (record or enum) has        *)
+(* 1..MaxMembers members of the non-recursive shapes below; helper declarations: a generic G1,   *)
+(* a plain record B1 and three types that refer back to TA (directly, under Option, under List). *)
+(* The programs consist of declarations only, so an added member breaks no other rule.           *)
+TPar(n)     == [k |-> "tparam", n |-> n]
+Gen(n, as)  == [k |-> "gen", n |-> n, as |-> as]
+U32         == T("u32")
+TyHelpers == <<
+  [k |-> "record", n |-> "G1", tp |-> <<"T">>, fs |-> <<Pm("v", TPar("T"))>>],
+  RecordD("B1", <<Pm("v", U32)>>),
+  RecordD("B2", <<Pm("back", Named("TA"))>>),
+  RecordD("B3", <<Pm("back", Opt(Named("TA")))>>),
+  RecordD("B4", <<Pm("n", ListOf(Str)), Pm("back", ListOf(Named("TA")))>>)>>
+BaseShapes == <<U32, Opt(U32), ListOf(U32), Gen("G1", <<U32>>), Named("B1")>>
+(* member types that make TA recursive: directly, under Option / List / a user generic, nested, *)
+(* and through a second type that refers back                                                   *)
+RecShapes == <<Named("TA"), Opt(Named("TA")), ListOf(Named("TA")), Gen("G1", <<Named("TA")>>),
+               Opt(ListOf(Named("TA"))), ListOf(Opt(Named("TA"))), Gen("G1", <<Opt(Named("TA"))>>),
+               Named("B2"), Opt(Named("B3")), ListOf(Named("B4")), Gen("G1", <<Named("B2")>>)>>
+Digit == <<"1", "2", "3", "4", "5", "6", "7", "8", "9">>
+ShapeSeqs == UNION {[1..k -> DOMAIN BaseShapes] : k \in 1..MaxMembers}
+RECURSIVE Code(_)
+Code(sq) == IF sq = <<>> THEN "" ELSE Digit[Head(sq)] \o Code(Tail(sq))
+TyDecl(kind, sq) ==
+  IF kind = "record" THEN RecordD("TA", [x \in DOMAIN sq |-> Pm("m" \o Digit[x], BaseShapes[sq[x]])])
+  ELSE EnumD("TA", [x \in DOMAIN sq |-> Vr("V" \o Digit[x], <<BaseShapes[sq[x]]>>)])
+TypeSeeds == {Seed("ty_" \o kind \o "_" \o Code(sq), TyHelpers \o <<TyDecl(kind, sq)>>) : kind \in {"record", "enum"}, sq \in ShapeSeqs}
+
+
 Seeds ==
   {Seed("arith_" \o t \o "_" \o op, SArith(t, op)) : <<t, op>> \in {x \in NumTys \X {"add", "sub", "mul", "div", "mod"} : x[2] \in ArOps(x[1])}}
   \cup {Seed("neg_" \o t, SNeg(t)) : t \in SignedTys}
@@ -371,7 +426,9 @@ Seeds ==
   \cup {Seed("shapes_" \o t, SShapes(t)) : t \in NumTys}
   \cup {Seed("ctl_" \o t, SCtl(t)) : t \in NumTys}
   \cup {Seed("fm_" \o t, SFm(t)) : t \in NumTys}
+  \cup {Seed("scope_" \o t, SScope(t)) : t \in NumTys}
   \cup {Seed("widths", SWidths)}
+  \cup TypeSeeds
 
 (* --------------------------------------------------------------- edit operators *)
 NodesOf(P, K)   == {i \in DOMAIN P.nodes : P.nodes[i].k \in K}
@@ -415,6 +472,40 @@ UnsignedOnly(P, x) ==
         /\ P.nodes[j].k = "bin" /\ P.nodes[j].op \notin {"and", "or"} =>
               ~(P.nodes[P.nodes[j].l].k = "int" /\ P.nodes[P.nodes[j].r].k = "int")
 
+BlksIn(P, i) == {j \in Subtree(P, i) : P.nodes[j].k = "blk"}
+ArmNames(P, a) == Range(a.bs) \cup BoundIn(P, a.b)
+(* the function-like declaration after x in declaration order (cyclic) *)
+NextFn(P, x) == IF \E y \in FnIdx(P) : y > x THEN CHOOSE y \in FnIdx(P) : y > x /\ \A z \in FnIdx(P) : z > x => y <= z
+                ELSE CHOOSE y \in FnIdx(P) : \A z \in FnIdx(P) : y <= z
+(* uses of a name in a scope that is a SIBLING of the scope that binds it (lexical scoping: a binding is *)
+(* visible from its let to the end of its block, a pattern binding in its arm, a loop variable in the   *)
+(* loop body, a parameter / local in its function)                                                      *)
+SiblingSites(P) ==
+  \* then-bound names in the else part (its blocks, the conditions of its if / while) and vice versa
+  UNION {{[w |-> "blk", b |-> b, n |-> n] : b \in BlksIn(P, P.nodes[j].e[1]), n \in BoundIn(P, P.nodes[j].t)}
+         \cup {[w |-> "cond", i |-> k, n |-> n] : k \in {q \in Subtree(P, P.nodes[j].e[1]) : P.nodes[q].k \in {"if", "while"}},
+                                                 n \in BoundIn(P, P.nodes[j].t)}
+         \cup {[w |-> "blk", b |-> b, n |-> n] : b \in BlksIn(P, P.nodes[j].t), n \in BoundIn(P, P.nodes[j].e[1])}
+         : j \in {q \in NodesOf(P, {"if"}) : P.nodes[q].e # <<>>}}
+  \* names of one match arm in the other arms
+  \cup UNION {UNION {{[w |-> "blk", b |-> b, n |-> n] : b \in BlksIn(P, P.nodes[j].arms[y].b), n \in ArmNames(P, P.nodes[j].arms[x])}
+                     : <<x, y>> \in {z \in (DOMAIN P.nodes[j].arms) \X (DOMAIN P.nodes[j].arms) : z[1] # z[2]}}
+              : j \in NodesOf(P, {"match"})}
+  \* names of a loop body in the loop condition / iterated expression; the loop variable in the iterated expression
+  \cup UNION {{[w |-> "cond", i |-> j, n |-> n] : n \in BoundIn(P, P.nodes[j].b)} : j \in NodesOf(P, {"while"})}
+  \cup UNION {{[w |-> "iter", i |-> j, n |-> n] : n \in BoundIn(P, j)} : j \in NodesOf(P, {"for"})}
+  \* names bound inside an earlier statement, used inside a later statement (or the final expression) of the same block
+  \cup UNION {UNION {{[w |-> "blk", b |-> c, n |-> n] :
+                       c \in UNION {BlksIn(P, P.nodes[b].ss[y]) : y \in {q \in DOMAIN P.nodes[b].ss : q > x}}
+                              \cup UNION {BlksIn(P, l) : l \in Range(P.nodes[b].last)},
+                       n \in BoundIn(P, P.nodes[b].ss[x])}
+                     : x \in {q \in DOMAIN P.nodes[b].ss : P.nodes[P.nodes[b].ss[q]].k # "let"}}
+              : b \in NodesOf(P, {"blk"})}
+  \* parameters and locals of one function in the next function
+  \cup UNION {{[w |-> "blk", b |-> P.decls[NextFn(P, x)].body, n |-> n] :
+                n \in (Range(Names(P.decls[x].ps)) \cup BoundIn(P, P.decls[x].body)) \ Range(Names(P.decls[NextFn(P, x)].ps))}
+              : x \in {q \in FnIdx(P) : NextFn(P, q) # q}}
+
 TypeDeclIdx(P) == {x \in DOMAIN P.decls : P.decls[x].k \in {"record", "enum"}}
 ConstIdx(P)    == {x \in DOMAIN P.decls : P.decls[x].k = "const"}
 
@@ -423,7 +514,7 @@ AllFamilies == {"operand-bool", "operand-str", "logic-int", "cond-nonbool", "arg
                 "name-undeclared", "name-out-of-scope", "match-drop-arm", "match-after-default",
                 "match-dup-arm", "neg-unsigned", "exit-forbidden", "assign-non-local", "redeclare",
                 "recursive-type", "recursive-const", "elem-type", "return-type", "let-type", "assign-type",
-                "fallthrough-after-loop", "match-rename-arm"}
+                "fallthrough-after-loop", "match-rename-arm", "name-sibling-scope", "recursive-member"}
 
 (* the rule of the property statement each family breaks *)
 RuleOf(f) ==
@@ -434,14 +525,14 @@ RuleOf(f) ==
     [] f = "arg-type"             -> "argument type"
     [] f \in {"field-unknown", "field-dup", "field-drop", "field-access-unknown"} -> "missing, duplicate or unknown record field"
     [] f = "field-type"           -> "field type"
-    [] f \in {"name-undeclared", "name-out-of-scope"} -> "unknown or out-of-scope name"
+    [] f \in {"name-undeclared", "name-out-of-scope", "name-sibling-scope"} -> "unknown or out-of-scope name"
     [] f \in {"match-drop-arm", "match-rename-arm"} -> "non-exhaustive match"
     [] f \in {"match-after-default", "match-dup-arm"} -> "unreachable match arm"
     [] f = "neg-unsigned"         -> "negating an unsigned value"
     [] f = "exit-forbidden"       -> "?, accept/reject or return where the enclosing item forbids it"
     [] f = "assign-non-local"     -> "assigning to something that is not a local variable"
     [] f = "redeclare"            -> "redeclaring a name in the same scope"
-    [] f \in {"recursive-type", "recursive-const"} -> "recursive types or constants"
+    [] f \in {"recursive-type", "recursive-const", "recursive-member"} -> "recursive types or constants"
     [] f = "elem-type"            -> "element type"
     [] f \in {"return-type", "fallthrough-after-loop"} -> "return type"
     [] f \in {"let-type", "assign-type"} -> "assigned value type"
@@ -486,6 +577,12 @@ Sites(P, f) ==
                x \in {y \in DOMAIN P.nodes[b].ss : P.nodes[P.nodes[b].ss[y]].k # "let"}} : b \in NodesOf(P, {"blk"})}}
          \cup {[b |-> b, x |-> x, n |-> P.nodes[P.nodes[b].ss[x]].n] : <<b, x>> \in UNION {{b} \X
                {y \in DOMAIN P.nodes[b].ss : P.nodes[P.nodes[b].ss[y]].k = "let"} : b \in NodesOf(P, {"blk"})}}
+    [] f = "name-sibling-scope" -> SiblingSites(P)
+    [] f = "recursive-member" ->
+         (* the subject type of the declaration grammar gets a member of a recursive shape, at every position *)
+         {s \in {[d |-> x, p |-> p, r |-> r] : x \in {y \in TypeDeclIdx(P) : P.decls[y].n = "TA"},
+                                                p \in 0..MaxMembers, r \in DOMAIN RecShapes} :
+             s.p <= Len(IF P.decls[s.d].k = "record" THEN P.decls[s.d].fs ELSE P.decls[s.d].vs)}
     [] f = "match-drop-arm" ->
          {[i |-> j, x |-> x] : <<j, x>> \in UNION {{j} \X {a \in DOMAIN P.nodes[j].arms : P.nodes[j].arms[a].g = <<>>} :
                j \in {y \in NodesOf(P, {"match"}) : \A a \in DOMAIN P.nodes[y].arms : P.nodes[y].arms[a].v # "_"}}}
@@ -595,6 +692,17 @@ Break(P, f, s) ==
          ELSE SetNode(P, s.i, [P.nodes[s.i] EXCEPT !.f = "zz_undeclared"])
     [] f = "name-out-of-scope" ->
          SetNode(AddNode(P, V(s.n)), s.b, [P.nodes[s.b] EXCEPT !.ss = InsertAt(@, s.x, NewIdx(P))])
+    [] f = "name-sibling-scope" ->
+        (CASE s.w = "blk"  -> SetNode(AddNode(P, V(s.n)), s.b, [P.nodes[s.b] EXCEPT !.ss = <<NewIdx(P)>> \o @])
+           [] s.w = "cond" -> LET Q1 == AddNode(P, V(s.n))
+                                  Q2 == AddNode(Q1, [k |-> "blk", ss |-> <<NewIdx(P)>>, last |-> <<P.nodes[s.i].c>>])
+                              IN SetNode(Q2, s.i, [P.nodes[s.i] EXCEPT !.c = NewIdx(Q1)])
+           [] s.w = "iter" -> LET Q1 == AddNode(P, V(s.n))
+                                  Q2 == AddNode(Q1, [k |-> "blk", ss |-> <<NewIdx(P)>>, last |-> <<P.nodes[s.i].e>>])
+                              IN SetNode(Q2, s.i, [P.nodes[s.i] EXCEPT !.e = NewIdx(Q1)]))
+    [] f = "recursive-member" ->
+         IF P.decls[s.d].k = "record" THEN [P EXCEPT !.decls[s.d].fs = InsertAt(@, s.p + 1, Pm("zz_rec", RecShapes[s.r]))]
+         ELSE [P EXCEPT !.decls[s.d].vs = InsertAt(@, s.p + 1, Vr("ZzRec", <<RecShapes[s.r]>>))]
     [] f = "match-drop-arm" -> SetNode(P, s.i, [P.nodes[s.i] EXCEPT !.arms = RemoveAt(@, s.x)])
     [] f = "match-rename-arm" ->
          LET ay == P.nodes[s.i].arms[s.y] IN
